@@ -235,8 +235,15 @@ class Harness:
         strat = prog.get("strategy")
         if strat:
             from pydsol.core.simulator import ErrorStrategy
-            self.sim.set_error_strategy({"log": ErrorStrategy.LOG_AND_CONTINUE, "warn": ErrorStrategy.WARN_AND_CONTINUE,
-                                         "pause": ErrorStrategy.WARN_AND_PAUSE}[strat])
+            es = {"log": ErrorStrategy.LOG_AND_CONTINUE, "warn": ErrorStrategy.WARN_AND_CONTINUE,
+                  "pause": ErrorStrategy.WARN_AND_PAUSE}[strat]
+            how = prog.get("strategy_call", "plain")
+            if how == "level_kw":
+                self.sim.set_error_strategy(es, log_level=60)      # explicit log level (above CRITICAL: stays quiet)
+            elif how == "level_pos":
+                self.sim.set_error_strategy(es, 60)
+            else:
+                self.sim.set_error_strategy(es)
 
     # ---------------------------------------------------------------- program actions on the real simulator
     def _actions(self, model, actions, parent):
@@ -322,7 +329,12 @@ class Harness:
         from pydsol.core.pubsub import EventProducer, EventType, EventListener
         from pydsol.core.interfaces import StatEvents
         sim = model.simulator
-        self.streams = {sp["name"]: MersenneTwister(sp["seed"]) for sp in self.prog.get("streams", [])}
+        self.streams = {sp["name"]: MersenneTwister(sp["seed"]) for sp in self.prog.get("streams", []) if sp.get("via") != "info"}
+        for sp in self.prog.get("streams", []):
+            if sp.get("via") == "info":
+                # the documented convenience: a fresh StreamInformation() owns a fresh 'default' stream (seed 10)
+                from pydsol.core.streams import StreamInformation
+                self.streams[sp["name"]] = StreamInformation().get_stream("default")
         self.dists = {}
         self.stats = {}
         self.producers = {}
